@@ -36,6 +36,7 @@ Val(gr, r) ==
              [] nd.op = "Reshape" -> ReshapeT(Val(gr, nd.ins[1]), nd.shape)
              [] nd.op = "ReduceMean" -> ReduceT(Val(gr, nd.ins[1]), nd.axes)
              [] nd.op = "Cast" -> CastT(nd.to, Val(gr, nd.ins[1]), SafeCasts)
+             [] nd.op = "Capture" -> UnT("capture", Val(gr, nd.ins[1]))     \* an If node whose nested body reads the value
              [] nd.op \in UnaryOps -> UnT(nd.op, Val(gr, nd.ins[1]))
              [] nd.op \in BinaryOps -> BinT(nd.op, Val(gr, nd.ins[1]), Val(gr, nd.ins[2]))
              [] OTHER -> Invalid
